@@ -146,6 +146,8 @@ func runC14(w *core.World, r *core.Report) {
 	r.Rule("R2", "per-opcode argument signature: decoder = every NewLine call site = ParseHandler callback")
 	r.Rule("R3", "primitive framing: no wrap in decoder bounds arithmetic, encoder/decoder length limits agree")
 	r.Rule("R4", "the assembler's integer encoder never right-trims the big-endian buffer")
+	r.Rule("R5", "Parse* functions hand out the primitive decoders' values unmodified (no constant or arithmetic on a success path)")
+	r.Rule("R6", "disassembler lines are built with constant format strings whose verb count equals the argument count")
 
 	vmPkg := w.Pkgs["vm"]
 	if vmPkg == nil {
@@ -364,6 +366,89 @@ func runC14(w *core.World, r *core.Report) {
 
 	// ---- R4 -----------------------------------------------------------------------------------
 	checkNoRightTrim(w, r, "R4")
+
+	// ---- R5 -----------------------------------------------------------------------------------
+	n5 := 0
+	for _, fn := range w.FuncsIn("vm") {
+		if !isDecoder(fn) || primitiveKind(fn) != "" {
+			continue
+		}
+		n5++
+		bad := ""
+		for _, b := range fn.Blocks {
+			ret, ok := b.Instrs[len(b.Instrs)-1].(*ssa.Return)
+			if !ok || b == fn.Recover {
+				continue
+			}
+			last := core.ReturnError(ret)
+			if last == nil || !core.IsNilConst(last) {
+				// tail calls return the callee's tuple as is; error returns are not constrained
+				continue
+			}
+			for i, rv := range ret.Results[:len(ret.Results)-1] {
+				bt, isBasic := rv.Type().Underlying().(*types.Basic)
+				if !isBasic || (bt.Info()&types.IsString == 0 && bt.Info()&types.IsInteger == 0) {
+					continue
+				}
+				for _, src := range core.Sources(rv) {
+					c, _, isX := core.ExtractOf(src)
+					if isX && isDecoder(core.StaticCallee(c)) {
+						continue
+					}
+					bad = fmt.Sprintf("result %d of the success return at %s derives from %s, not from a primitive decoder", i, w.Pos(ret.Pos()), describeSource(src))
+				}
+			}
+		}
+		r.Check(bad == "", "R5", core.QName(fn)+": decoded values handed out unmodified", fn.Pos(), "success results are the primitive decoders' results", "the decoder alters a decoded argument (caps, substitutes or recomputes it): decode(encode(x)) differs from x for some x: "+bad)
+	}
+	r.Floor("R5", "non-primitive decoders", n5, 5)
+
+	// ---- R6 -----------------------------------------------------------------------------------
+	n6 := 0
+	for _, fn := range w.FuncsIn("vm") {
+		for _, c := range core.CallsTo(fn, "fmt.Sprintf") {
+			call, ok := c.(*ssa.Call)
+			if !ok {
+				continue
+			}
+			// does the result reach ParseHandler.cur ?
+			toCur := false
+			for v := range core.Forward(call, func(cc *ssa.Call, i int) bool { return core.PkgOf(core.StaticCallee(cc)) == "vm" }) {
+				if refs := v.Referrers(); refs != nil {
+					for _, u := range *refs {
+						if st, ok := u.(*ssa.Store); ok {
+							if tn, f, ok := core.FieldOfAddr(st.Addr); ok && tn == "vm.ParseHandler" && f == "cur" {
+								toCur = true
+							}
+						}
+						if ret, ok := u.(*ssa.Return); ok && len(ret.Results) > 0 && ret.Results[0] == v && fn.Signature.Recv() != nil && core.TypeName(fn.Signature.Recv().Type()) == "*vm.ParseHandler" {
+							toCur = true
+						}
+					}
+				}
+			}
+			if !toCur {
+				continue
+			}
+			n6++
+			format, isConst := core.ConstString(call.Call.Args[0])
+			if !isConst {
+				r.Bad("R6", core.QName(fn)+": disassembler format string", call.Pos(), "the format string of a disassembler line is built from data (a symbol containing '%' is read as a formatting verb): the listing differs from the instruction")
+				continue
+			}
+			verbs := strings.Count(strings.ReplaceAll(format, "%%", ""), "%")
+			nargs := 0
+			if sl, ok := call.Call.Args[1].(*ssa.Slice); ok {
+				if al, ok := sl.X.(*ssa.Alloc); ok {
+					if arr, ok := al.Type().Underlying().(*types.Pointer).Elem().Underlying().(*types.Array); ok {
+						nargs = int(arr.Len())
+					}
+				}
+			}
+			r.Check(verbs == nargs, "R6", core.QName(fn)+": disassembler format string", call.Pos(), fmt.Sprintf("%q with %d arguments", format, nargs), fmt.Sprintf("format %q has %d verbs but %d arguments", format, verbs, nargs))
+		}
+	}
+	r.Floor("R6", "disassembler Sprintf sites", n6, 4)
 }
 
 func isDecoderLike(f *ssa.Function) bool {
